@@ -23,17 +23,24 @@ fn rac_lev(a: &[char], b: &[char]) -> u8 {
 
 #[test]
 fn rac_fuzzy_backends() {
-    let universe = ["a", "ab", "abb", "Abx", "ba", "b", "aab", "Bab", "xA"]; // no two words differ only in case (such words share one dictionary entry)
+    let mut cases = 0u64;
+    let mut nontrivial = 0u64;
+    // two universes: ASCII words with capitals; words with multi-byte letters and the one capital whose lower-case form is two
+    // characters (U+0130). No two words differ only in case (such words share one dictionary entry).
+    let configs: Vec<(Vec<&str>, Vec<char>)> = vec![
+        (vec!["a", "ab", "abb", "Abx", "ba", "b", "aab", "Bab", "xA"], vec!['a', 'b', 'A', 'x']),
+        (vec!["é", "éa", "aé", "ia", "café", "éé"], vec!['é', 'a', 'i', '\u{130}']),
+    ];
+    for (universe, alpha) in configs.iter() {
     let mut queries: Vec<Vec<char>> = vec![vec![]];
     let mut frontier: Vec<Vec<char>> = vec![vec![]];
     for _ in 0..3 {
         let mut next = vec![];
-        for t in &frontier { for c in ['a', 'b', 'A', 'x'] { let mut u = t.clone(); u.push(c); next.push(u); } }
+        for t in &frontier { for c in alpha.iter() { let mut u = t.clone(); u.push(*c); next.push(u); } }
         queries.extend(next.iter().cloned());
         frontier = next;
     }
-    let mut cases = 0u64;
-    let mut nontrivial = 0u64;
+    queries.push("café".chars().collect()); queries.push("cafe".chars().collect());
     for mask in 1u32..(1 << universe.len()) {
         if mask.count_ones() > 3 { continue; }
         let words: Vec<&str> = (0..universe.len()).filter(|i| mask & (1 << i) != 0).map(|i| universe[i]).collect();
@@ -70,10 +77,11 @@ fn rac_fuzzy_backends() {
                             if r.edit_distance < prev { bad = Some(format!("{}: results not ordered by distance", name)); }
                             prev = r.edit_distance;
                         }
-                        if name == "mutable" && cap == 100 && *q == ql {
-                            for w in &word_chars {
+                        // for a lower-case query neither back-end may miss a dictionary word within the bound
+                        if cap == 100 && *q == ql {
+                            for w in (if name == "fst" { &fst_words } else { &word_chars }) {
                                 if rac_lev(q, w) <= dist && !res.iter().any(|r| r.word == &w[..]) {
-                                    bad = Some(format!("mutable: {:?} is within {} of the lower-case query but missing", w.iter().collect::<String>(), dist));
+                                    bad = Some(format!("{}: {:?} is within {} of the lower-case query but missing", name, w.iter().collect::<String>(), dist));
                                 }
                             }
                         }
@@ -86,5 +94,6 @@ fn rac_fuzzy_backends() {
             }
         }
     }
-    println!("RAC-OK fuzzy_backends cases={} nontrivial={} bound=dictionaries<=3-of-9-words,queries<=3-over-4,dist<=2", cases, nontrivial);
+    }
+    println!("RAC-OK fuzzy_backends cases={} nontrivial={} bound=dictionaries<=3-of-9-ASCII-words+<=3-of-6-non-ASCII-words,queries<=3-over-4,dist<=2", cases, nontrivial);
 }
